@@ -5,7 +5,8 @@ From RecordUpdate Require Import RecordUpdate.
 
 (** the state after a step: invariant kept, or connection terminated with an error *)
 Definition Fin (e : ep) : Prop :=
-  Good e \/ (panicked e = None /\ dead e <> None /\ NoDup (alloc e) /\ len (alloc e) <= max_ports e).
+  Good e \/ (panicked e = None /\ dead e <> None /\ NoDup (alloc e) /\ len (alloc e) <= max_ports e /\
+             buf_ok (cfg_buffer (mx e)) (ports (mx e)) /\ lq_ok (mx e)).
 
 Lemma apply_effs_frame effs : forall e,
   panicked (apply_effs e effs) = panicked e /\ max_ports (apply_effs e effs) = max_ports e /\
@@ -34,11 +35,12 @@ Proof.
 Qed.
 
 Lemma finish_Proto e1 err effs :
-  panicked e1 = None -> NoDup (alloc e1) -> len (alloc e1) <= max_ports e1 -> Fin (finish e1 (Proto err effs)).
+  panicked e1 = None -> NoDup (alloc e1) -> len (alloc e1) <= max_ports e1 ->
+  buf_ok (cfg_buffer (mx e1)) (ports (mx e1)) -> lq_ok (mx e1) -> Fin (finish e1 (Proto err effs)).
 Proof.
-  intros Hp Hn Hl. right. cbn [finish]. unfold resolve_waiting. prj.
-  destruct (apply_effs_frame effs e1) as (I1 & I2 & I3 & I4 & I5 & I6).
-  repeat split; try congruence; auto. lia.
+  intros Hp Hn Hl Hb Hq. right. cbn [finish]. unfold resolve_waiting. prj.
+  destruct (apply_effs_frame effs e1) as (I1 & I2 & I3 & I4 & I5 & I6). rewrite I3.
+  split; [congruence|split; [congruence|split; [auto|split; [lia|split; assumption]]]].
 Qed.
 
 Ltac inj H :=
